@@ -200,6 +200,11 @@ def c02(tier, seed):
                                      '!lastok adding_a_simplex_whose_facets_are_present', '!post-add c0 %s DX' % t, 'q c0 basis ' + t,
                                      'obs c0', '!inv c0', '!views c0'],
                        pool=pool, tag='C02 name %s re-used on %s' % (t, q))
+        # copy into a supplied complex that has no simplices (new, or emptied by deletions)
+        if not thin or rng.random() < 0.3:
+            yield dict(lines=base + ['new c1', '!snap c1 c0', 'copyinto c0 c1', '!lastok copy_into_an_empty_complex', '!samecontent c0 c1', 'obs c1',
+                                     'new c2', 'add c2 u960 [] -', 'del c2 u960', 'copyinto c0 c2', '!samecontent c0 c2', 'obs c2', '!same c0'],
+                       pool=pool, tag='C02 copy into an empty complex')
         # bulk add into another complex under a renaming
         if not thin or rng.random() < 0.3:
             ren = {t: 'u%d' % (300 + j) for j, t in enumerate(sorted(names)) if rng.random() < 0.5}
@@ -569,6 +574,14 @@ def _c06(tier, seed, z=False, pid='C06'):
         for r in rs:
             L = Live(POOL_NAMES[i % len(POOL_NAMES)], '%s %s %s' % (pid, r, sorted(map(sorted, fam))), judge=('z' if z else None))
             L.many(build_lines(fam, 'c0', r, rng))
+            if L.pool == 'falsy0':
+                # a second simplex under a name in use (0, '' or ()) must be refused: the homology is that of the
+                # family of vertex sets, one simplex per name
+                for t in L.toks('c0', 0)[:3]:
+                    L.do('add c0 %s [] -' % t); L.do('!rejected')
+                    pts = [x for x in L.toks('c0', 0) if x != t]
+                    if len(pts) >= 2:
+                        L.do('add c0 %s %s -' % (t, Lst(pts[:2]))); L.do('!rejected')
             homology_queries(L, 'c0', z)
             if i % 5 == 0:
                 # the same family reached through a copy, relabelling and decoding
@@ -713,6 +726,7 @@ def c08(tier, seed):
         L.do('obs c0'); L.do('obs c1'); L.do('alias')
         L.do('!noshare c0 c1 ' + ' '.join('x%d' % k for k in range(6)))      # every constructed complex is a new object with its own dicts
         L.do('!jsonset c0')
+        L.do('!lookups c0'); L.do('!same c0')         # every look-up, the fatal=True forms included, is read-only
         L.do('!noalias c0'); L.do('obs c0')          # what queries hand out is the caller's to change
         yield L.case()
     for j in range(300 if tier == 'quick' else 3000):
@@ -828,6 +842,8 @@ def c09(tier, seed):
         else:
             g.do('iter f'); g.do('snap f r')
         g.do('alias'); g.do('!noshare f r'); g.do('obs r')
+        if g.pool in ('int', 'str') and kind != 3:
+            g.do('json f jr'); g.do('!samecontent f jr'); g.do('obs jr')       # decoding gives the complex at the current index
         g.do('!fcopyinto f')
         g.do('!snap f')
         names = g.toks('r')
@@ -908,6 +924,13 @@ def c10(tier, seed):
                 L.do('relabel c1 {%s:u995}' % a); L.do('relabel c1 {%s:%s}' % (b, a)); L.do('relabel c1 {u995:%s}' % b)
         elif names and kind == 0:
             L.do('del c1 ' + rng.choice(names))          # strictly smaller
+            if (j // 6) % 3 == 0:
+                # bare points, one of them deleted; a look at the listings the caller is free to change
+                L.do('new c2'); L.do('new c3')
+                for p in range(rng.randrange(2, 5)):
+                    L.do('add c2 u%d [] -' % p); L.do('add c3 u%d [] -' % p)
+                L.do('del c3 u%d' % rng.randrange(2)); L.do('!cmp c2 c3'); L.do('!cmp c3 c2'); L.do('q c3 le c2'); L.do('q c2 le c3'); L.do('q c3 eq c2')
+                L.do('!noalias c2'); L.do('!cmp c2 c3'); L.do('!cmp c2 c2'); L.do('q c2 eq c2')
             L.do('q c1 lt c0'); L.do('q c0 gt c1'); L.do('q c0 ne c1')
         elif names and kind == 1:
             # a name of c0 used for a simplex of another order / other faces in c1
@@ -1004,6 +1027,11 @@ def c11(tier, seed):
         L.many(['new s'] + ['add s u%d [] -' % p for p in range(n)] + ['addb s - [u%d,u%d] -' % (a, b) for a, b in itertools.combinations(range(n), 2)])
         L.do('flag s t'); L.do('!samefam f t')
         yield L.case()
+    for (r_, c_) in ((2, 2), (2, 3), (3, 3)):
+        yield dict(lines=['lattice c0 %d %d' % (r_, c_), '!snap c0', 'flag c0 f', '!lastok flagComplex_of_a_lattice', '!flag c0 f', '!same c0', 'obs f', '!noshare c0 f'],
+                   pool='int', tag='C11 flag complex of a %dx%d lattice' % (r_, c_))
+    for j in range(40 if tier == 'quick' else 400):
+        yield dict(lines=['!growfilt %d' % (seed * 733 + j)], pool='int', tag='C11 growing a filtration %d' % j)
     # growing: a flag complex, then edges added and growFlagComplex, against rebuilding from scratch
     n = 700 if tier == 'quick' else 2500
     for j in range(n):
@@ -1296,6 +1324,11 @@ def c14(tier, seed):
         for op in rng.sample(['next f', 'prev f', 'minidx f', 'maxidx f', 'next f', 'prev f'], 4):
             g.do(op); g.do('q f getidx')
         g.do('iter f'); g.do('q f getidx'); g.do('obs f')
+        g.do('fcopy f g ' + Lst(g.copy_order())); g.do('add g u710 [] -')
+        vis = g.alltoks()
+        if vis:
+            g.do('del g ' + rng.choice(vis))
+        g.do('!filt f'); g.do('!filtq f'); g.do('!filt g'); g.do('!filtq g')
         yield g.case('C14 the current index emptied and set again %d/%d' % (seed, j))
 
 
@@ -1472,6 +1505,17 @@ def c17(tier, seed):
         for t in names:
             if rng.random() < 0.4:
                 L.do('dset c0 %s %d %d' % (t, rng.randrange(4), rng.choice([0, 1, 7] + list(range(1000, 1015)))))
+        edges = [t for t in names if B.orderOf(L.ex.objs['c0'], L.ex.name(t)) == 1]
+        if edges and i % 4 == 1 and len(L.toks('c0', 0)) >= 3:
+            # a name re-used on other points after its faces had been asked for
+            c0 = L.ex.objs['c0']
+            t = rng.choice(edges)
+            old = {L.ex.T(x) for x in B.basisOf(c0, L.ex.name(t))}
+            L.do('q c0 faces ' + t); L.do('del c0 ' + t)
+            cand = [q for q in itertools.combinations(L.toks('c0', 0), 2) if set(q) != old and B.simplexWithBasis(c0, [L.ex.name(x) for x in q]) is None]
+            if cand:
+                L.do('add c0 %s %s -' % (t, Lst(rng.choice(cand))))
+            names = L.toks('c0')
         if names and i % 4 == 0:
             L.do('del c0 ' + rng.choice(names))
             names = L.toks('c0')
